@@ -365,12 +365,14 @@ let rec oracle touch cap (maxkb : int) (prefix : symop list) (ops : symop array)
   let n = Array.length ops in
   let (outs, byp) = split_byp outs in
   match byp with
-  | Some (iv :: rest) when all_blocked && List.length rest = n + 1 ->
-      (* the model says this schedule's last pick must block; the implementation went on and was run to
-         completion under control: judge that execution *)
+  | Some (iv :: rest) when List.length rest = n + 1 ->
+      (* the schedule did not run everything to the end (a pick the model says must block went on, a pick
+         blocked unexpectedly, or the schedule ended early) and the implementation was run to completion
+         under control: that execution is judged as well *)
       let flags = match outs with _ :: f :: _ -> f | _ -> String.make n '-' in
       let v = oracle touch cap maxkb prefix ops (["fin"; flags; iv] @ rest @ ["ids=ok"]) in
-      if v = "ok" then oracle touch cap maxkb prefix ops outs else v ^ "-after-bypassed-lock"
+      if v = "ok" then oracle touch cap maxkb prefix ops outs
+      else v ^ (if all_blocked then "-after-bypassed-lock" else "-after-controlled-completion")
   | _ ->
   match outs with
   | "PANIC" :: _ -> "fail:panic"
